@@ -474,6 +474,11 @@ impl<Leaf: MerkleLeaf, Root: MerkleRoot, Proof: MerkleProof> MerkleTree<Leaf, Ro
     }
 }
 
+// verification hook (guard: cfg(kani), set only by `cargo kani`): harnesses live in /verif
+#[cfg(kani)]
+#[path = "/verif/units/merkle/kani/merkle_kani.rs"]
+mod verif_kani;
+
 #[cfg(test)]
 mod tests {
     use rand::prelude::*;
